@@ -1,7 +1,7 @@
 (* C12 -- Command line: every argv is parsed safely and means what the help text says.
-   Only statements; every proof is `exact <lemma>` into C12_Proofs.v / C12_Meaning.v / C12_Select.v. *)
+   Only statements; every proof is `exact <lemma>` into C12_Proofs.v / C12_Meaning.v / C12_Select.v / C12_Safe.v. *)
 From Coq Require Import NArith ZArith Bool List.
-From CppUVerif Require Import gen.Gen_C12 lib.Str C12_Model C12_Proofs C12_Meaning C12_Select C12_Examples.
+From CppUVerif Require Import gen.Gen_C12 lib.Str C13_Model C12_Model C12_Proofs C12_Meaning C12_Select C12_Checked C12_Safe C12_Examples.
 Import ListNotations.
 Local Open Scope N_scope.
 
@@ -11,6 +11,24 @@ Local Open Scope N_scope.
 Theorem C12_total : forall tm argv, (exists h, parse tm argv = Reject h) \/ (exists c, parse tm argv = Accept c).
 Proof. exact parse_total. Qed.
 Print Assumptions C12_total.
+
+(* memory safety and termination on buffers: the same parser written over C buffers with the bounds-checked primitives of
+   C13_Model.v (C12_Checked.v: av[i] is an exact-size buffer; av[i] + 2 / + parameterLength, av[i+1], at(0), subString(0, size()-1),
+   subString(2), split, AtoI, AtoU all checked; Oob = read outside a buffer, NoFuel = loop did not end, Ub = int overflow) returns,
+   for EVERY valid vector, Ok of what the list-level parser returns -- hence a rejection or a configuration *)
+Theorem C12_memory_safe : forall tm argv, valid tm argv = true -> parse_m tm argv = Ok (parse tm argv).
+Proof. exact memory_safe. Qed.
+Print Assumptions C12_memory_safe.
+
+Theorem C12_total_on_buffers : forall tm argv, valid tm argv = true ->
+  (exists h, parse_m tm argv = Ok (Reject h)) \/ (exists c, parse_m tm argv = Ok (Accept c)).
+Proof. exact memory_safe_result. Qed.
+Print Assumptions C12_total_on_buffers.
+
+(* the code before the repair of subString (a2ff8a1): "TEST(" as last argument reads past the buffer of the empty string *)
+Theorem C12_memory_safe_old_refuted : ~ memory_safe_old_stmt.
+Proof. exact memory_safe_old_refuted. Qed.
+Print Assumptions C12_memory_safe_old_refuted.
 
 (* refinement to the documented grammar: every spelling (attached / separated, any order and multiplicity) of every sequence
    of documented options whose values have the claimed shapes (opt_ok) gives exactly the documented configuration;
